@@ -586,7 +586,11 @@ func (p c19) e2e(c *core.Ctx) {
 		tag = world.WireTag("value", "${no.such.key}"+args)
 		fields = append(fields, world.FieldSpec{Name: "F", Type: reflect.TypeOf(""), Tag: tag})
 	case 2:
-		tag = world.WireTag("prop", "no.such.key"+args)
+		key := "no.such.key"
+		if c.Rng.Intn(3) == 0 {
+			key += "\\" // a value part that ends in a backslash (a Windows path, an escaped separator): still the value
+		}
+		tag = world.WireTag("prop", key+args)
 		fields = append(fields, world.FieldSpec{Name: "F", Type: reflect.TypeOf(0), Tag: tag})
 	case 3:
 		tag = world.WireTag("prefix", "no.such.key"+args)
@@ -661,6 +665,9 @@ func (p c19) crowd(c *core.Ctx) {
 				inner += fmt.Sprintf(":unused-default-%d", i)
 			case 2: // default
 				want = fmt.Sprintf("default-of-%d-%d", i, j)
+				if c.Rng.Intn(4) == 0 {
+					want = fmt.Sprintf("C:\\dir-%d-%d\\", i, j) // a default that ends in a backslash
+				}
 				inner += ":" + want
 			default: // nothing: optional, stays empty
 				inner += ",required=false"
